@@ -280,6 +280,8 @@ fn gen_fields(r: &mut Rng, u: &Universe, cfg: &GenCfg, enc: Encoding, shape: Sha
         let ty = r.pick(&[Ty::U8, Ty::String, Ty::Bool]).clone();
         fields.insert(pos, Field { idx: 0, b: false, ty, optional: r.chance(30), tag: None, skip: true, name: format!("{}skipped", prefix), long_attr: false, fwd: 0 });
     }
+    // a keyword as field name (raw identifier), where the fields are named
+    if shape == Shape::Named && !fields.is_empty() && r.chance(8) { let k = r.below(fields.len()); fields[k].name = (*r.pick(&["r#type", "r#match", "r#struct", "r#fn"])).to_string() }
     // permute the declaration order (indices stay attached to their fields)
     if r.chance(50) {
         for i in (1 .. fields.len()).rev() { let j = r.below(i + 1); fields.swap(i, j) }
@@ -308,7 +310,7 @@ fn gen_struct(r: &mut Rng, u: &Universe, cfg: &GenCfg, name: String) -> StructDe
 fn gen_enum(r: &mut Rng, u: &Universe, cfg: &GenCfg, name: String) -> EnumDef {
     let index_only = r.chance(25);
     let encoding = match r.below(5) { 0 | 1 => None, 2 => Some(Encoding::Array), _ => Some(Encoding::Map) };
-    let nvar = 1 + r.below(5);
+    let nvar = if r.chance(4) { 30 + r.below(12) } else { 1 + r.below(5) };
     let mut idxs = Vec::new();
     let mut cur = if r.chance(30) { r.below(3) as u32 } else { 0 };
     for _ in 0 .. nvar { idxs.push(cur); cur += match r.below(8) { 0 ..= 4 => 1, 5 => 2, 6 => 23, _ => 250 + r.below(70000) as u32 } }
